@@ -907,3 +907,52 @@ func runQueued(limit uint32, seed int64, st *stats) *conn {
 	c.finish(p, getES(p))
 	return c
 }
+
+// runSlotReuse: with the connection at its limit, the stream whose response ends with a DATA frame that
+// leaves through the server's asynchronous writer is released, and the moment its END_STREAM has arrived
+// the client - legally - opens the next stream, without any round trip in between. Added after seeded
+// change C13-I; the window on the server side is small, so the script repeats it many times.
+func runSlotReuse(limit uint32, seed int64, st *stats) *conn {
+	c := newConn(limit, true, st) // a legal script: no error reaction may appear at all
+	c.bigMode = map[uint32]bool{}
+	c.start(defaultSettings)
+	next := uint32(3)
+	fresh := func() uint32 {
+		id := next
+		next += 2
+		if id%6 == 1 { // (ids whose body is big by rule of the handler are skipped: the mode header decides here)
+			id = next
+			next += 2
+		}
+		return id
+	}
+	var holders []uint32
+	for i := 0; i < int(limit)-1 && !c.over(); i++ {
+		id := fresh()
+		holders = append(holders, id)
+		c.exec(frameStep("holder", getES(id)))
+	}
+	big := func(id uint32) []byte {
+		c.bigMode[id] = true
+		return h2peer.RawFrame(1, fES|fEH, id, block(append(reqFields(id, "GET", -1, "big"), xsid(id))))
+	}
+	cur := fresh()
+	if !c.over() {
+		c.exec(frameStep("request-big-response", big(cur)))
+	}
+	for round := 0; round < 30 && !c.over(); round++ {
+		c.exec(Step{Op: "release", SID: cur, NoFence: true}) // returns when END_STREAM of cur has arrived
+		nxt := fresh()
+		c.exec(frameStep("request-right-behind-end-stream", big(nxt)))
+		st.slotReuse++
+		cur = nxt
+	}
+	for _, id := range append(holders, cur) {
+		if !c.over() {
+			c.exec(Step{Op: "release", SID: id})
+		}
+	}
+	p := fresh()
+	c.finish(p, getES(p))
+	return c
+}
